@@ -88,20 +88,33 @@ SERVER_FN = ('fun c : string * bool * (bool * ffi_modbus_exception * N) => let \
              '(if set then show_spec (write_result_spec s (name_ffi_modbus_exception e) r) else "EX:IllegalFunction") end')
 
 
+def model_eval(ctx, *a, **kw):
+    """the model's answers, or None per case when the model does not compile (lost tie: the
+    implementation is then still compared with the Spec, to find a concrete failing input)"""
+    n = len(a[2])
+    if not ctx.models_ok:
+        return [None] * n
+    try:
+        return ctx.coq_eval(*a, **kw)
+    except vlib.ModelEvalError as e:
+        ctx.oblige('model-evaluates', False, str(e)[:300])
+        return [None] * n
+
+
 def check_server(ctx, cases):
     impl = ctx.harness('ffi_server', cases, timeout=900)
     coq_cases = []
     for c in cases:
         kind, cfg, succ, name, raw, start, values = c.split()
         coq_cases.append(f'("{KINDS[kind]}", {vlib.coq_bool(cfg == "set")}, ({vlib.coq_bool(succ == "1")}, FME_{name}, {raw}))')
-    both = ctx.coq_eval(['Base.Show', 'Gen.FfiTables', 'Model.Ffi', 'Spec.FfiSpec'], SERVER_FN, coq_cases,
+    both = model_eval(ctx, ['Base.Show', 'Gen.FfiTables', 'Model.Ffi', 'Spec.FfiSpec'], SERVER_FN, coq_cases,
                         case_type='string * bool * (bool * ffi_modbus_exception * N)', preamble=SERVER_PRE, per_shard=300)
     bad = 0
     classes = {}
     for c, i, b in zip(cases, impl, both):
         kind, cfg, succ, name, raw, start, values = c.split()
-        model, spec_coq = b.split('|')
         spec = spec_write(succ == '1', name, int(raw)) if cfg == 'set' else 'EX:IllegalFunction'
+        model, spec_coq = b.split('|') if b is not None else (None, spec)
         m = re.fullmatch(r'ffi=(\S+) cb=(\d+)/(\d+) args=(\S+) rust=(\S+)', i)
         cls = f'{kind}.{"unset" if cfg != "set" else ("success" if succ == "1" else ("raw" if name == "Unknown" else "standard"))}'
         classes[cls] = classes.get(cls, 0) + 1
@@ -126,7 +139,7 @@ def check_server(ctx, cases):
             bad += 1
             if bad <= 4:
                 ctx.violation(key, what, {'cases': [['server', c]], 'impl': i, 'spec': spec, 'model': model}, no_failing_input=key.startswith('spec-oracle') or key == 'harness')
-        if not problems and m and model != m.group(1):
+        if not problems and m and model is not None and model != m.group(1):
             bad += 1
             ctx.violation('wrapper-model-differs-from-impl', f'{c}: model {model}, implementation and Spec {spec}',
                           {'cases': [['server', c]], 'impl': i, 'spec': spec, 'model': model}, no_failing_input=True)
@@ -174,7 +187,8 @@ def gen_client_cases(ctx, thorough):
         cases.append(f'badparam {op} 2000 {1969 if op == "wmc" else 124} toomany')
         cases.append(f'badparam {op} 2000 0 empty')
         cases.append(f'badparam {op} 65535 2 overflow')
-    cases.append('states rh 0 0')
+    cases.append('states rh 0 0 close')
+    cases.append('states rh 0 0 refuse')
     return cases
 
 
@@ -316,13 +330,14 @@ def check_client(ctx, cases):
         elif sc == 'states':
             classes['states'] = classes.get('states', 0) + 1
             f_seq = ffi.split('/', 1)[1]
-            if f_seq != rust or not f_seq.endswith('Shutdown') or 'Connected' not in f_seq:
+            need = 'WaitAfterDisconnect' if extra == 'close' else 'WaitAfterFailedConnect'
+            if f_seq != rust or not f_seq.endswith('Shutdown') or need not in rust:
                 fail('client-state-not-same-named', f'client state listener: C ABI saw {f_seq}, Rust API saw {rust}', c, i, spec=rust)
     # the model on the same cases
-    model = ctx.coq_eval(['Base.Show', 'Gen.FfiTables', 'Model.Ffi'], 'run_case', model_cases, case_type='string * call_env',
+    model = model_eval(ctx, ['Base.Show', 'Gen.FfiTables', 'Model.Ffi'], 'run_case', model_cases, case_type='string * call_env',
                          preamble=CLIENT_PRE, per_shard=200)
     for mo, (want, c, i) in zip(model, model_expect):
-        if mo != want:
+        if mo is not None and mo != want:
             fail('completion-model-differs-from-impl', f'{c}: model {mo}, implementation {want}', c, i, nfi=True, model=mo)
     ctx.oblige('correspondence:c-abi-client-vs-rust-api-client', bad == 0, f'{bad} disagreements on {len(cases)} scenarios')
     return classes, n_calls, list(zip(cases, impl))
@@ -334,7 +349,8 @@ def run(ctx):
     ctx.prove()
     if ctx.tier == 'thorough':
         ctx.coqchk()
-    if not ctx.build_harness() or not models_ok:
+    ctx.models_ok = models_ok
+    if not ctx.build_harness():
         return
     thorough = ctx.tier == 'thorough'
     if ctx.replay and 'cases' in ctx.replay:
